@@ -40,7 +40,7 @@ ASSUMPTIONS = [
     "foreign files: seconds are compared with the exact rational value within 1e-9 relative",
 ]
 COMPONENTS = {"real": ["partitura.io.exportmidi.save_performance_midi", "partitura.io.importmidi.load_performance_midi/adjust_time", "partitura.io.load_performance", "partitura.performance", "mido"], "stub": ["raw file layer (SimFS)", "independent SMF codec (model/ref_smf.py) as peer reader and writer"]}
-PROBES = ("list_input", "ppart_input", "merge_tracks_save", "merge_tracks_load", "tick_half_boundary", "tempo_in_later_track", "multiple_tempo_segments", "zero_velocity_note_on_as_off", "fault_in_flight", "load_performance_chain", "reader_on_torn_file")
+PROBES = ("second_generation", "list_input", "ppart_input", "merge_tracks_save", "merge_tracks_load", "tick_half_boundary", "tempo_in_later_track", "multiple_tempo_segments", "zero_velocity_note_on_as_off", "fault_in_flight", "load_performance_chain", "reader_on_torn_file")
 
 
 # ----------------------------------------------------------------------------
@@ -65,7 +65,7 @@ def gen_perf(w, k):
                 on = float(tick * (w.randrange(0, 4000) + F(1, 2)))
             else:
                 on = round(w.uniform(0, 8), 6)
-            dur = w.choice((float(tick * w.randrange(1, 900)), round(w.uniform(0.01, 2.0), 6)))
+            dur = w.choice((float(tick * w.randrange(1, 900)), round(w.uniform(0.01, 2.0), 6), 0.0, float(tick) / 4))
             n = {"id": "p%dn%d" % (pi, i), "midi_pitch": w.randrange(21, 109), "note_on": on, "note_off": on + dur, "velocity": w.randrange(1, 128), "track": w.choice(tracks), "channel": w.choice((0, 0, 1, 9, 15))}
             notes.append(n)
         controls = [{"type": "c", "number": w.choice((64, 67, 1, 7)), "value": w.randrange(0, 128), "time": round(w.uniform(0, 9), 6), "track": w.choice(tracks), "channel": w.choice((0, 1))} for _ in range(k.choice((0, 0, 2, 5)))]
@@ -81,7 +81,7 @@ def gen_perf(w, k):
     for p in parts:
         keep = []
         for n in sorted(p["notes"], key=lambda n: n["note_on"]):
-            if tk(n["note_off"]) <= tk(n["note_on"]):
+            if tk(n["note_off"]) < tk(n["note_on"]):
                 continue
             if any(m["midi_pitch"] == n["midi_pitch"] and m["channel"] == n["channel"] and tk(m["note_on"]) <= tk(n["note_off"]) + 1 and tk(n["note_on"]) <= tk(m["note_off"]) + 1 for q in parts for m in (keep if q is p else q.get("_kept", []))):
                 continue
@@ -141,13 +141,16 @@ def generate(seed, tier, cfg):
     st = R.Streams(seed)
     w, k, o, f = st.workload, st.knobs, st.ops, st.faults
     if cfg == "foreign":
-        return {"mode": "foreign", "foreign": gen_foreign(w, k), "knobs": {"merge_load": k.random() < 0.3, "default_bpm": k.choice((120, 120, 100)), "chunk": k.choice((0, 7, 1))}, "ops": [], "faults": []}
+        return {"mode": "foreign", "foreign": gen_foreign(w, k), "knobs": {"merge_load": k.random() < 0.3, "default_bpm": k.choice((120, 120, 100)), "chunk": k.choice((0, 7, 1)), "regen": {"shift": o.choice((0.0, 0.5, 0.013)), "ppq": o.choice(("same", "same", 480)), "mpq": o.choice((500000, 500000, 750000))} if k.random() < 0.6 else None}, "ops": [], "faults": []}
     perf = gen_perf(w, k)
     form = k.choice(("performance", "performance", "list", "ppart"))
     ops = [{"k": "save", "route": o.choice(("path", "path", "filelike"))}]
     for _ in range(k.choice((1, 2, 3))):
         ops.append({"k": "save", "route": o.choice(("path", "filelike"))} if o.random() < 0.25 else {"k": "load", "route": o.choice(("path", "midifile", "load_performance"))})
     ops.append({"k": "load", "route": o.choice(("path", "midifile", "load_performance"))})
+    if o.random() < 0.6:
+        # second generation: edit the loaded performance and save it again
+        ops.append({"k": "regen", "shift": o.choice((0.0, 0.0, 0.25, 1.5, 0.013)), "ppq": o.choice(("same", "same", 480, 96)), "mpq": o.choice((500000, 500000, "same", 750000))})
     faults = []
     if cfg == "roundtrip+fault":
         for _ in range(f.choice((1, 1, 2))):
@@ -261,11 +264,53 @@ def run_foreign(case, res):
                         break
                 if res.violations:
                     break
+        if kn.get("regen") and not res.violations and not kn["merge_load"]:
+            regen(res, fs, perf, kn["regen"], kn)
         g1 = G.fingerprint()
         if g1 != g0:
             res.violation("O5-globals", "load", "process-global state changed", site="globals")
     res.sigadd("foreign", len(fg["tracks"]), len(tempo_map), kn["merge_load"])
     res.nontrivial = len(fg["tracks"]) >= 2 or len(tempo_map) >= 2
+
+
+def regen(res, fs, loaded, spec, kn):
+    """second generation: (optionally) shift every note of a LOADED performance and
+    save/load it again; the new file must hold the edited times"""
+    import partitura.performance as P
+    from partitura.io.exportmidi import save_performance_midi
+    from partitura.io.importmidi import load_performance_midi
+
+    res.probe("second_generation")
+    pps = loaded.performedparts
+    if not any(pp.notes for pp in pps):
+        return
+    d = spec["shift"]
+    for pp in pps:
+        for n in pp.notes:
+            if d:
+                n["note_off"] = n["note_off"] + d
+                n["note_on"] = n["note_on"] + d
+        for c in pp.controls + pp.programs:
+            c["time"] = c["time"] + d
+    ppq = pps[0].ppq if spec["ppq"] == "same" else spec["ppq"]
+    mpq = pps[0].mpq if spec["mpq"] == "same" else spec["mpq"]
+    try:
+        save_performance_midi(loaded, "/simfs/regen.mid", ppq=ppq, mpq=mpq)
+        again = load_performance_midi("/simfs/regen.mid")
+    except Exception as e:
+        import traceback
+
+        tb = traceback.extract_tb(e.__traceback__)
+        if not any("/partitura/" in f.filename for f in tb):
+            raise
+        res.violation("P6-second-generation", "regen", "saving/loading a loaded (and shifted) performance raised %s: %s" % (type(e).__name__, e), site="raised")
+        return
+    n0 = len(res.violations)
+    # precondition of the comparison: the edited notes still do not collide in ticks
+    check_loaded(res, again, pps, {"ppq": ppq, "mpq": mpq}, {"merge_save": False}, False)
+    for v in res.violations[n0:]:
+        v["oracle"] = "P6-second-generation"
+        v["op"] = "regen"
 
 
 # ----------------------------------------------------------------------------
@@ -364,7 +409,7 @@ def check_loaded(res, loaded, pps, perf, kn, merged_load):
     gotks = sorted((c["fifths"], c["mode"]) for pp in loaded.performedparts for c in pp.key_signatures)
     if wantks != gotks:
         res.violation("P5-meta", "load", "key signatures loaded %s, saved %s" % (gotks, wantks), site="key_signature")
-    wantm = sorted((c["type"], c.get("text")) for pp in pps for c in pp.meta_other)
+    wantm = sorted((c["type"], c.get("text")) for pp in pps for c in pp.meta_other if c["type"] not in ("end_of_track",))
     gotm = sorted((c["type"], c.get("text")) for pp in loaded.performedparts for c in pp.meta_other if c["type"] not in ("end_of_track",))
     if wantm != gotm:
         res.violation("P5-meta", "load", "other meta events loaded %s, saved %s" % (gotm, wantm), site="meta_other")
@@ -431,6 +476,7 @@ def execute(case, keep_log=False):
         fault_by_op.setdefault(f["op_index"], []).append(f)
     ntracks = len(set(n["track"] for pp in pps for n in pp.notes))
     nontrivial = ntracks >= 2 or form == "list"
+    last_loaded = [None]
     with fs:
         g0 = G.fingerprint()
         for i, op in enumerate(case["ops"]):
@@ -471,6 +517,14 @@ def execute(case, keep_log=False):
                             content[path] = "ref"
                         except Exception as e:
                             res.violation("D1-retry", "save", "fault-free retry after %s raised %s: %s" % (outcome, type(e).__name__, e), site=outcome.split(":")[0])
+            elif op["k"] == "regen":
+                if last_loaded[0] is not None and file_ok and not res.violations:
+                    fs.faults = []
+                    regen(res, fs, last_loaded[0], op, kn)
+                    last_loaded[0] = None
+                    outcome = "regen"
+                else:
+                    outcome = "skip"
             else:
                 state = content.get(path)
                 loaded = None
@@ -500,6 +554,8 @@ def execute(case, keep_log=False):
                             res.violation("P2-notes", "load", "route %s returned %s, not a Performance" % (route, type(loaded).__name__), site="type")
                         else:
                             check_loaded(res, loaded, pps, perf, kn, merged)
+                            if not merged and not kn["merge_save"]:
+                                last_loaded[0] = loaded
                 elif state == "unknown":
                     res.probe("reader_on_torn_file")
                 elif state is None and outcome == "loaded" and not faulted:
